@@ -15,7 +15,7 @@ from hypothesis import strategies as st
 ROWS = mp.Value('q', 0)
 
 BITEXACT = ['gauss', 'twomax', 'banana', 'rfunnel', 'halfspace', 'stairs',
-            'constant', 'wrap', 'slab']
+            'constant', 'wrap', 'slab', 'spike']
 FAMILIES = BITEXACT + ['funnel']
 BLOBS = ['none', 'float', 'int', 'bool', 'S8', 'two', 'struct',
          'two_single', 'array']
@@ -145,6 +145,18 @@ class Problem:
             for j in range(2, d):
                 t = (z[j] - self.mu[j]) * self.inv_s[j]
                 acc = acc - 0.5 * t * t
+        elif f == 'spike':
+            # broad mode plus a tall narrow spike: late in the exploration a
+            # few stray live points remain in the broad mode, far from the
+            # dense cluster in the spike (sparse ellipsoids, trims)
+            g = z[0] * 0.0
+            sp = z[0] * 0.0 + self.off2
+            for j in range(d):
+                t = (z[j] - self.mu[j]) * self.inv_s[j]
+                g = g - 0.5 * t * t
+                t = (z[j] - self.mu2[j]) * 200.0
+                sp = sp - 0.5 * t * t
+            acc = np.where(sp > g, sp, g)
         elif f == 'twosum':
             # two separated Gaussian modes, summed (closed-form evidence)
             g1 = z[0] * 0.0
@@ -346,6 +358,11 @@ def problem_specs(draw, d=None, families=None, blobs=None, priors=None):
         p['mu2'] = [draw(st.sampled_from([0.15, 0.25, 0.85]))
                     for _ in range(d)]
         p['off2'] = draw(st.sampled_from([0.0, -1.0, -3.0]))
+    if fam == 'spike':
+        p['mu'] = [0.4] * d
+        p['sigma'] = [draw(st.sampled_from([0.15, 0.25]))] * d
+        p['mu2'] = [draw(st.sampled_from([0.7, 0.55]))] * d
+        p['off2'] = draw(st.sampled_from([4.0, 7.0, 10.0]))
     if fam == 'wrap':
         p['mu'][0] = draw(st.sampled_from([0.0, 0.02, 0.97]))
         p['sigma'][0] = draw(st.sampled_from([0.03, 0.08]))
